@@ -102,13 +102,17 @@ fn apply_hexcase(plain: &str, hexcase: usize) -> String {
     }
 }
 
-pub fn handler_for(ex: &Exchange) -> (StandardCupv2Handler, PublicKeys) {
+pub fn handler_for(ex: &Exchange) -> Result<(StandardCupv2Handler, PublicKeys), Failure> {
     let pk = public_keys(ex.keys[0], &ex.keys[1..]);
-    // through the JSON/PEM (de)serialisation, as an embedder's configuration would be
-    let js = serde_json::to_string(&pk).expect("PublicKeys serialise");
-    let back: PublicKeys = serde_json::from_str(&js).expect("PublicKeys deserialise");
-    assert_eq!(back, pk, "PublicKeys JSON/PEM round trip changed the key set");
-    (StandardCupv2Handler::new(&back), back)
+    // through the JSON/PEM (de)serialisation, as an embedder's configuration would be: the key registered for an id must
+    // be the key the configuration names for it
+    let bad = |msg: String| Failure::new("key-set-configuration-roundtrip", msg, json!({"keys(id,pool)": ex.keys}));
+    let js = serde_json::to_string(&pk).map_err(|e| bad(format!("PublicKeys does not serialise: {e}")))?;
+    let back: PublicKeys = serde_json::from_str(&js).map_err(|e| bad(format!("PublicKeys does not deserialise from its own JSON {js}: {e}")))?;
+    if back != pk {
+        return Err(bad(format!("the key set read back from its JSON/PEM form differs from the configured one: ids {:?} became {:?}", std::iter::once(pk.latest.id).chain(pk.historical.iter().map(|k| k.id)).collect::<Vec<_>>(), std::iter::once(back.latest.id).chain(back.historical.iter().map(|k| k.id)).collect::<Vec<_>>())));
+    }
+    Ok((StandardCupv2Handler::new(&back), back))
 }
 
 fn response(etag: Option<&[u8]>, body: &[u8]) -> Option<Response<Vec<u8>>> {
@@ -480,7 +484,7 @@ fn check_differential(ex: &Exchange, h: &StandardCupv2Handler, pk: &PublicKeys, 
 pub fn case(t: &mut Tape, ctx: &CaseCtx) -> CaseResult {
     let mode = t.choose(3);
     let ex = gen_exchange(t);
-    let (h, pk) = handler_for(&ex);
+    let (h, pk) = handler_for(&ex)?;
     let pos = check_positive(&ex, &h)?;
     let mut classes: Vec<&'static str> = vec![];
     classes.push(["wrap_plain", "wrap_quoted", "wrap_weak"][ex.wrap]);
